@@ -555,6 +555,9 @@ class ChanExec(Exec):
             def _sanitize_packet_size(self, n):
                 return n
 
+            def _unlink_channel(self, chanid):
+                pass
+
         # pipes the Channel constructs (now or lazily, later) are instrumented by the installed factory;
         # the harness never touches ch.in_stderr_buffer itself before the threads do
         _CHAN_EX[0] = self
@@ -584,7 +587,9 @@ class ChanExec(Exec):
             return ("Out" if k == "out" else "Err", list(op[1]))
         if k == "combine":
             return ("Combine", bool(op[1]))
-        return ("Recv" if k == "recv" else "RecvErr", op[1])
+        if k in ("eof", "chclose", "unlink"):
+            return ({"eof": "Eof", "chclose": "ChClose", "unlink": "Unlink"}[k],)
+        return ("Recv" if k == "recv" else "RecvErr", op[1]) + tuple(op[2:])
 
     def perform(self, op):
         import socket
@@ -606,6 +611,20 @@ class ChanExec(Exec):
             return ("done",)
         if k == "combine":
             return ("done", bool(ch.set_combine_stderr(op[1])))
+        if k == "eof":                      # peer sent CHANNEL_EOF (no CHANNEL_CLOSE)
+            ch._handle_eof(None)
+            return ("done",)
+        if k == "chclose":                  # peer sent CHANNEL_CLOSE
+            ch._handle_close(None)
+            return ("done",)
+        if k == "unlink":                   # transport died: Channel._unlink -> _set_closed
+            ch._unlink()
+            return ("done",)
+        # timeout variant of this read (the harness's own setting, not an operation under test)
+        t = 0.0
+        if len(op) > 2:
+            t = op[2] if op[2] is None else (int(op[2]) if len(op) > 3 and op[3] == "int" else float(op[2]))
+        vars(ch)["timeout"] = t
         try:
             return ("ret", ch.recv(op[1]) if k == "recv" else ch.recv_stderr(op[1]))
         except socket.timeout:
@@ -655,6 +674,8 @@ class ChanOracle:
         self.out_got = b""
         self.err_got = b""
         self.combine = False
+        self.ended = False      # peer EOF / CLOSE / transport loss has been processed
+        self.results = []
         self.inflight = {}
         self.steps = []
         self.failed = False
@@ -670,8 +691,18 @@ class ChanOracle:
     def step(self, tid, dt, action, res, ex):
         self.steps.append([tid, dt])
         k = res[0]
-        if action[0] not in ("Resume",):
+        self.results.append(tuple(res))
+        if action[0] not in ("Resume", "AWake"):
             self.inflight[tid] = action
+        if action[0] in ("Recv", "RecvErr") and k in ("timeout", "blocked") and self.ended:
+            out_buf, err_buf = ex.buffers()
+            if not (out_buf if action[0] == "Recv" else err_buf):
+                self.fail("no-eof-on-stream",
+                          "%s after the peer's EOF / CLOSE on a drained stream %s instead of returning the empty "
+                          "string (both receive buffers must report end-of-file)"
+                          % ("recv" if action[0] == "Recv" else "recv_stderr",
+                             "raised socket.timeout" if k == "timeout" else "blocked"),
+                          expected=b"", observed=k)
         if k == "exc":
             self.fail("unexpected-exception", "%s raised %s" % (action[0], res[1]), observed=res[1])
         if k not in ("paused", "blocked"):
@@ -682,6 +713,8 @@ class ChanOracle:
                 self.err_fed += bytes(act0[1])
             elif act0[0] == "Combine" and k == "done":
                 self.combine = act0[1]
+            elif act0[0] in ("Eof", "ChClose", "Unlink") and k == "done":
+                self.ended = True
             elif act0[0] == "Recv" and k == "ret":
                 self.out_got += res[1]
             elif act0[0] == "RecvErr" and k == "ret":
@@ -1085,6 +1118,8 @@ def read_grid(ctx, work):
 
 
 CHANNEL_SETS = [
+    # peer EOF without CLOSE while both streams are being read to their end
+    [[("err", b"A"), ("eof",)], [("recv_err", 10), ("recv_err", 10)], [("out", b"a"), ("recv", 10), ("recv", 10)]],
     # the very first uses of the stderr buffer overlap: reader, feeder and set_combine_stderr on a fresh channel
     [[("recv_err", 10), ("recv_err", 10)], [("err", b"A"), ("err", b"B")], [("out", b"a"), ("combine", True)]],
     # stderr chunks racing with the switch to combined mode, while stdout data is received
@@ -1117,12 +1152,41 @@ def gen_channel_programs(rng):
             return ps
 
 
+def channel_eof_grid(ctx):
+    """For each of the two streams of a channel, each way the incoming side ends (peer EOF without CLOSE, peer
+    CLOSE, transport loss) and each timeout variant: the buffered data is delivered, then recv / recv_stderr
+    return the empty string, again and again; the other stream reports end-of-file too."""
+    variants = [(None,), (0, "int"), (0,), (2,)]
+    k = 0
+    for closer in ("eof", "chclose", "unlink"):
+        for feed, rd, other in (("out", "recv", "recv_err"), ("err", "recv_err", "recv")):
+            data = b"ab" if feed == "out" else b"AB"
+            v = variants[k % 4]
+            k += 1
+            for v in (variants if ctx.thorough or closer == "eof" else [v]):
+                programs = [[(feed, data), (closer,), (rd, 10) + v, (rd, 10) + v, (rd, 1) + v, (other, 3) + v]]
+                expected = [("done",), ("done",), ("ret", data), ("ret", b""), ("ret", b""), ("ret", b"")]
+                r = run_schedule(ctx, programs, [], extend=lambda ch: 0, cls=ChanExec)
+                ctx.count(("chan-eof", closer, feed, v), kind="channel-eof-grid")
+                got = [x for x in r["oracle"].results if x[0] != "paused"]
+                if got != expected:
+                    ctx.fail("channel-eof-%s" % rd,
+                             "after %s (timeout %r%s) the %s stream does not deliver its data and then end-of-file"
+                             % ({"eof": "the peer's EOF without CLOSE", "chclose": "the peer's CLOSE",
+                                 "unlink": "loss of the transport"}[closer], v[0], " (int)" if len(v) > 1 else "",
+                                "stdout" if feed == "out" else "stderr"),
+                             case={"rig": "channel", "programs": programs,
+                                   "schedule": [list(c) for c in r["schedule"]]},
+                             expected=expected, observed=got)
+
+
 def channel_receive_path(ctx, rng):
     """All interleavings of _feed / _feed_extended / set_combine_stderr / recv / recv_stderr programs on a real
     Channel (oracle only: the Coq model of C26 is the pipe; C21 models the combine logic)."""
     sets = CHANNEL_SETS + [gen_channel_programs(rng) for _ in range(12 if ctx.thorough else 4)]
     total = 0
     with pipe_factory():
+        channel_eof_grid(ctx)
         for k, programs in enumerate(sets):
             leaves, _ = explore(ctx, programs, 6000 if ctx.thorough else 1800, cls=ChanExec)
             total += len(leaves)
